@@ -255,22 +255,45 @@ def check(ctx):
     ctx.ob("salt.default-none", create, "salt: Optional[bytes] = None", okdflt, "no salt by default" if okdflt else "create has a non-None default salt")
     g = an.cfg(create)
     fresh = False
-    for n in g.nodes:
-        if n.kind == "assign" and isinstance(n.ast, ast.Assign) and isinstance(n.ast.value, ast.Call) and \
-                any(e[0] == "URANDOM" for nn in g.nodes_for(n.ast.value) for e in calls.direct(create, nn)):
-            arg = n.ast.value.args[0] if n.ast.value.args else None
-            if arg is not None:
-                arg = expand_aliases(create, arg, n)
-            size_ok = isinstance(arg, ast.Attribute) and arg.attr == "digest_size"
-            from engine.flow import guard_atoms
-            guard_ok = any((not tr) and isinstance(e_, ast.Name) and "salt" in e_.id for e_, tr, _t in guard_atoms(an, create, n))
-            tgt_ok = any(isinstance(t, ast.Name) and "salt" in t.id for t in n.ast.targets)
-            fresh = size_ok and guard_ok and tgt_ok
-            ctx.ob("salt.fresh", create, n.ast, fresh,
-                   "without a given salt, os.urandom(hasher.digest_size) is drawn per call" if fresh else
-                   "the no-salt branch does not draw os.urandom(hasher.digest_size) (size ok: %s, under `not salt`: %s)" % (size_ok, guard_ok), node=n)
-    if not fresh:
-        ctx.ob("salt.fresh", create, "salt = os.urandom(hasher.digest_size)", False, "create never draws a random salt")
+    from engine.flow import guard_atoms
+    sparam = next((a.arg for a in create.params if "salt" in a.arg), None)
+
+    def is_salt_param(e, at):
+        if not isinstance(e, ast.Name):
+            return False
+        if e.id == sparam:
+            return True
+        srcs = value_sources(create, e, at)
+        return bool(srcs) and all(k == "param" and p_ == sparam for k, p_ in srcs)
+
+    def digest_size_expr(e, at, depth=0):
+        if isinstance(e, ast.Attribute) and e.attr == "digest_size":
+            return True
+        if isinstance(e, ast.Name) and depth < 4:
+            srcs = value_sources(create, e, at)
+            return bool(srcs) and all(k == "expr" and isinstance(pl, ast.AST) and digest_size_expr(pl, None, depth + 1) for k, pl in srcs)
+        return False
+    # the salt that is stored (first component of the returned DigestValue): where does it come from when none is given?
+    stored_salts = [r.ast.value.args[0] for r in returns_of(an, create) if isinstance(r.ast.value, ast.Call) and r.ast.value.args]
+    urandoms = []
+    for r in returns_of(an, create):
+        if isinstance(r.ast.value, ast.Call) and r.ast.value.args:
+            for k, pl in value_sources(create, r.ast.value.args[0], r):
+                if k == "expr" and isinstance(pl, ast.Call) and any(e[0] == "URANDOM" for nn in g.nodes_for(pl) for e in calls.direct(create, nn)):
+                    urandoms.append(pl)
+    for u in urandoms:
+        un = g.nodes_for(u)[0]
+        arg = u.args[0] if u.args else None
+        size_ok = arg is not None and digest_size_expr(arg, un)
+        guard_ok = any((not tr) and is_salt_param(e_, t_) for e_, tr, t_ in guard_atoms(an, create, un)) or \
+            any(tr and isinstance(e_, ast.Compare) and len(e_.ops) == 1 and isinstance(e_.ops[0], ast.Is) and is_salt_param(e_.left, t_)
+                and isinstance(e_.comparators[0], ast.Constant) and e_.comparators[0].value is None for e_, tr, t_ in guard_atoms(an, create, un))
+        fresh = size_ok and guard_ok
+        ctx.ob("salt.fresh", create, u, fresh,
+               "without a given salt, os.urandom(hasher.digest_size) is drawn per call and becomes the stored salt" if fresh else
+               "the no-salt branch does not draw os.urandom(hasher.digest_size) (size ok: %s, under `not salt`: %s)" % (size_ok, guard_ok), node=un)
+    if not urandoms:
+        ctx.ob("salt.fresh", create, "salt = os.urandom(hasher.digest_size)", False, "create never draws a random salt (none reaches the stored DigestValue)")
 
     # ---------------------------------------------------------------- C09.4 codec
     tb, tp = model.method("ChallengeField", "to_basic"), model.method("ChallengeField", "to_python")
@@ -449,6 +472,12 @@ def check(ctx):
                            "field state written here does not hold a computed digest" if not hashed_v else
                            "a digest computed for one configuration is kept on the field (shared by every configuration of the schema): "
                            "later configurations reuse its salt instead of drawing a fresh one", node=n, nontrivial=hashed_v)
+    # a default reaches the configuration through the field's own __setdefault__ only (that is where a plaintext default is
+    # hashed): nobody hands field.default to _set_default_value directly (shared with C13.2)
+    from . import c13
+    sub = type(ctx)(ctx.pid, ctx.an, ctx.tier)
+    c13.check_fresh_defaults(sub)
+    ctx.obligations.extend(o for o in sub.obligations if not o.qualname.endswith("__setdefault__"))
     # __setdefault__: plaintext default is hashed
     sd = model.method("ChallengeField", "__setdefault__")
     sdv = model.method("Config", "_set_default_value")
